@@ -271,6 +271,13 @@ func (r *NodeManagement) processNotifyDetailedDiscoveryData(message *api.Message
 			}
 
 			entityAddress := entity.Description.EntityAddress.Entity
+
+			// the device information entity carries the NodeManagement feature every message
+			// of the device is resolved through, a notification can not remove it
+			if slices.Equal(entityAddress, DeviceInformationAddressEntity) {
+				continue
+			}
+
 			removedEntity := remoteDevice.RemoveEntityByAddress(entityAddress)
 
 			// only continue if the entity existed
